@@ -84,8 +84,8 @@ theorem euler_row_sums : Amul euler (ones euler) = euler.c := by decide +kernel
 variable {α : Type} [Field α] [LinearOrder α] [IsStrictOrderedRing α]
 
 /-- the generated tableau with its entries read in the field α -/
-def rk4T : Tableau α := rk4.map (fun q => (q : α))
-def eulerT : Tableau α := euler.map (fun q => (q : α))
+def rk4T : Tableau α := rk4.map (Rat.cast : ℚ → α)
+def eulerT : Tableau α := euler.map (Rat.cast : ℚ → α)
 
 theorem rk4T_eq : (rk4T : Tableau α) =
     { c := [0, 1/2, 1/2, 1], A := [[], [1/2], [0, 1/2], [0, 0, 1]], b := [1/6, 1/3, 1/3, 1/6] } := by
@@ -98,7 +98,7 @@ theorem eulerT_eq : (eulerT : Tableau α) = { c := [0], A := [[]], b := [1] } :=
 theorem rk4_stage_times_field (t dt : α) :
     stageTimes (rk4T : Tableau α) t dt = [t, t + dt / 2, t + dt / 2, t + dt] := by
   simp [stageTimes, rk4T_eq]
-  refine ⟨?_, ?_⟩ <;> ring
+  ring
 
 /-- **the iterator code is the Runge-Kutta step of the generated tableau**, for every right-hand
 side f (time-dependent or not), every t, x, dt. -/
@@ -107,15 +107,14 @@ theorem rk4Iter_eq_rkStep (f : α → α → α) (dt t x : α) :
   have e0 : t + 0 * dt = t := by ring
   have e1 : t + 1 / 2 * dt = t + dt / 2 := by ring
   have e2 : t + 1 * dt = t + dt := by ring
-  have s1 : x + dt * (1 / 2 * f t x + 0) = x + dt / 2 * f t x := by ring
+  have r1 : ∀ k : α, x + dt * (1 / 2 * k) = x + dt / 2 * k := by intro k; ring
+  have r2 : ∀ k1 k2 : α, x + dt * (0 * k1 + 1 / 2 * k2) = x + dt / 2 * k2 := by intro k1 k2; ring
+  have r3 : ∀ k1 k2 k3 : α, x + dt * (0 * k1 + (0 * k2 + 1 * k3)) = x + dt * k3 := by
+    intro k1 k2 k3; ring
   simp only [rk4Iter, rkStep, rk4T_eq, rkStages, dotL, updateX, scalarOps, List.nil_append,
-    List.cons_append, e0, e1, e2, mul_zero, add_zero, s1]
+    List.cons_append, e0, e1, e2, mul_zero, add_zero, r1, r2, r3]
   generalize f t x = k1
-  have s2 : ∀ k2 : α, x + dt * (0 * k1 + (1 / 2 * k2 + 0)) = x + dt / 2 * k2 := by intro k2; ring
-  simp only [s2]
   generalize f (t + dt / 2) (x + dt / 2 * k1) = k2
-  have s3 : ∀ k3 : α, x + dt * (0 * k1 + (0 * k2 + (1 * k3 + 0))) = x + dt * k3 := by intro k3; ring
-  simp only [s3]
   generalize f (t + dt / 2) (x + dt / 2 * k2) = k3
   generalize f (t + dt) (x + dt * k3) = k4
   ring
@@ -239,7 +238,7 @@ theorem rk4_local_error_affine (a b c d y dt : α) :
 
 example : rkStep (rk4T : Tableau ℚ) (fun s _ => 2 * s) 0 1 (1 / 2) = 5 / 4 := by
   rw [rk4_quadrature (fun s => 2 * s)]; norm_num
-example : rkStep (eulerT : Tableau ℚ) (fun _ u => u) 0 1 (1 / 2) = 3 / 2 := by
+example : rkStep (eulerT : Tableau ℚ) (fun _ u => 1 * u) 0 1 (1 / 2) = 3 / 2 := by
   rw [euler_linear_test (1 : ℚ)]; norm_num
 
 end KawinV.Props.C06
